@@ -192,8 +192,18 @@ Definition v07 (cs : caseP) (a : ann) : bool :=
     | _, _, _, _ => false
     end) (an_acks a).
 
+(* a flush request taken (after the point the list starts at) and then begun *)
+Fixpoint take_then_begin (taken : bool) (l : list ev) : bool :=
+  match l with
+  | [] => false
+  | EL LWorkerTake :: t => take_then_begin true t
+  | EL LFlBegin :: t => taken || take_then_begin taken t
+  | _ :: t => take_then_begin taken t
+  end.
+
 (* C08: nothing accepted once the stopped flag is set; nil => drained (v05); after a deadline
-   return no CreateFile / Update is started under a live context; a buffered channel is never given up *)
+   return no CreateFile / Update is started under a live context and no flush request taken after the
+   return is begun; a buffered channel is never given up *)
 Definition v08 (cs : caseP) (a : ann) : bool :=
   let log := cp_log cs in
   let pflag := pos_label log (fun l => match l with LStopFlag => true | _ => false end) in
@@ -207,7 +217,18 @@ Definition v08 (cs : caseP) (a : ann) : bool :=
      | Some p => existsb (fun e => match e with OStoreCtx KCreate true | OStoreCtx KUpdate true => true | _ => false end) (skipn (S p) log)
      | None => false
      end
+  || match pret with
+     | Some p => take_then_begin false (skipn (S p) log)
+     | None => false
+     end
   || existsb (fun k => match ak_o k, ak_ch k with AGiveUp, Some ChBuf => true | _, _ => false end) (an_acks a)
+  (* no silence: once the flush worker has exited, every accepted batch with a buffered channel got its value *)
+  || match pos_label log (fun l => match l with LWorkerExit => true | _ => false end) with
+     | Some _ => existsb (fun r => match assoc r (tried log) with
+                                   | Some (_, ChBuf) => negb (Nat.eqb (count_recv log r) 1)
+                                   | _ => false end) (accepted_obs log)
+     | None => false
+     end
   || v05 cs.
 
 (* C09: accepted-but-unattempted never exceeds the bound of the configuration *)
